@@ -245,6 +245,49 @@ NOT_YET = {}
 NOT_APPLICABLE = []
 
 
+# what the fourth round of independently seeded changes added (appended to the texts above)
+ROUND4 = {
+    'C01': ' Whole messages are also compared field by field (header and batch-item fields, Ephemeral in every value), a field '
+           'counting as encoded under a version when some other value of it changes the bytes.',
+    'C02': ' An invariant at every primitive write (hooked from the harness in every workload of the check): the bytes a primitive '
+           'appends are the reference encoding of the tag, type and value it holds at that moment.',
+    'C03': ' Policies are replaced under their names while the engine runs; a concurrent class (three identities on three '
+           'threads, thread yields injected at executed lines) checks refusals, creators and victims\' rows under interleaving.',
+    'C04': ' Lifecycle rules inside batches: items judged one by one against the set of states the successful items account for '
+           '(Revoke with every reason code, message and compromise occurrence date).',
+    'C05': ' Split-key integers at every byte-width boundary below 2**63; attribute indices counted up, left out, or zero on '
+           'every instance.',
+    'C06': ' Sign / SignatureVerify through the server with CreateKeyPair pairs over every Digital Signature Algorithm and '
+           'hashing member x padding, an independent verifier and negatives; RSA encryption of the cryptography engine.',
+    'C07': ' Destroy under other spellings of the identifier (an acknowledged Destroy must remove exactly that object) and '
+           'requests whose COMMIT meets a database locked by a reader (a transient storage fault).',
+    'C08': ' Structured placeholder batches (creating item incl. DeriveKey, failing items, identifier-less attribute operations) and '
+           'a second twin from which only the first failing item is removed.',
+    'C09': ' A start-up class: death at every SQL event of a server start on a new file, an empty file and a store in use; the '
+           'restarted server must answer a battery of creations, listings and reads as on a sound store.',
+    'C10': ' Yields over the whole package (the codec runs outside the lock), hot-object histories, histories without garbage '
+           'collection, three KMIP 2.0 clients, frames the 2.0 decoder must refuse, a memoised linearisation search.',
+    'C11': ' The same at the connection: a prefix of requests and a probe on one real KmipSession against the probe on a new '
+           'connection to a new engine over a copy of the database.',
+    'C12': ' A CPU-time (virtual time) budget turns a message loop or decoder that does not come back into a witness; a mutation '
+           'class sets well-formed items of other tags, types and versions into structures; an overrunning item counts when the '
+           'decoder reads it (differential run).',
+    'C13': ' A coherent cryptographic grid: Active keys of the right kind x every block mode, padding, hashing and signature '
+           'algorithm, derivation method and key format.',
+    'C15': ' New values equal to an existing instance; the attribute operation followed by a committing item under Continue.',
+    'C16': ' Empty requests under each unsupported version three times in a row; version echo of requests the engine rejects '
+           'as a whole (asynchronous, undo, time stamps, missing batch ids) under every supported version.',
+    'C17': ' Certificates whose further common names are blank or repeated.',
+    'C19': ' The arguments of locate / revoke / rekey / get with a key wrapping specification are checked field by field in the '
+           'request on the wire; pie rekey and check against a scripted server; zero-valued Check results; multi-instance '
+           'attributes compared value by value.',
+    'C20': ' Clients configured with a password from a configuration file or from arguments, in shapes a configuration parser '
+           'trips over.',
+}
+for _pid, _t in ROUND4.items():
+    CHECKS[_pid]['text'] += _t
+
+
 def build():
     with open(os.path.join(ROOT, 'properties.jsonl')) as f:
         pids = [json.loads(l)['id'] for l in f if l.strip()]
